@@ -225,6 +225,14 @@ def run_one(cfg):
             if not np.array_equal(np.ravel(current_point), np.ravel(bb.u)):
                 bad("not-centred-on-incumbent", f"local fit in {caller} selects the training set around {np.ravel(current_point).tolist()} "
                     f"while the incumbent is {np.ravel(bb.u).tolist()}", f"local_gp_fitting {stats['local_fit']}")
+        if bb is not None and caller == "_search_step_" and mode != "det":
+            # stochastic targets, search step: the kept surrogate is re-centred on the incumbent; the throw-away trial copy on the point just evaluated
+            stats["centre_checked"] = stats.get("centre_checked", 0) + 1
+            cp = np.ravel(current_point)
+            le = st.get("last_eval_u")
+            if not (np.array_equal(cp, np.ravel(bb.u)) or (le is not None and np.array_equal(cp, le))):
+                bad("not-centred-on-incumbent", f"local fit in {caller} selects the training set around {cp.tolist()}, which is neither the incumbent "
+                    f"{np.ravel(bb.u).tolist()} nor the point just evaluated {None if le is None else le.tolist()}", f"local_gp_fitting {stats['local_fit']}")
         if bb is not None and caller in ("_poll_step_", "_search_step_"):
             at_inc = np.array_equal(np.ravel(current_point), np.ravel(bb.u))
             if caller == "_poll_step_" or at_inc:
@@ -267,6 +275,7 @@ def run_one(cfg):
         return res
 
     def w_call(self, x, *a, **k):
+        st["last_eval_u"] = np.array(x, dtype=float).reshape(-1).copy()
         r = o_call(self, x, *a, **k)
         st["last_call"] = (np.array(x, dtype=float, copy=True).reshape(-1), r[0], r[1], r[2])
         st["fl"] = self
